@@ -129,6 +129,21 @@ GenPeerInit ==
                    IF k \in {"unary", "client"} THEN <<M(101, 3)>> ELSE <<M(101, 3), M(102, 0)>>, o)
                 @@ [peer |-> "server", choices |-> c])
 GenPeerSpec == GenPeerInit /\ [][FALSE]_vars
+\* ... and a conformant foreign client: which messages are compressed, bare gRPC content types, padded -Bin values,
+\* blanks in the accept list, no protocol-version header; against every outcome class of the handler program
+RChoice(mk, pb, bc, sa, nv) == [Mask |-> mk, PadBin |-> pb, BareCT |-> bc, SpacedAccept |-> sa, NoVersion |-> nv]
+GenPeerClientInit ==
+  \E p \in Protos, k \in Kinds, codec \in {"proto", "json"}, cs \in {"none", "gzip", "rev"}, mk \in {0, 1, 2, 3},
+     pb \in BOOLEAN, bc \in BOOLEAN, sa \in BOOLEAN, hp \in {<<>>, <<"rev">>},
+     o \in {OK, Err(5, "pct", 2, MetaE, 1), Err(16, "nonascii", 0, <<>>, 0), Plain("ctl", 0)} :
+    /\ (k \in {"unary", "client"} => o.after = 0)
+    /\ (cs = "none" => mk = 0)
+    /\ InitWith(Mk(p, k, codec, 2, <<cs, IF cs = "rev" THEN <<"rev">> ELSE <<>>>>, 0, hp, 0,
+                   <<H("X-Req", <<"r1", "r2">>), H("X-Data-Bin", <<"AAEC/w", "/+8">>)>>,
+                   IF k \in {"unary", "server"} THEN <<M(1, 3)>> ELSE <<M(1, 3), M(2, 0), M(3, 9)>>, HdrB, TrlB,
+                   IF k \in {"unary", "client"} THEN <<M(101, 3)>> ELSE <<M(101, 3), M(102, 0)>>, o)
+                @@ [peer |-> "client", rchoices |-> RChoice(mk, pb, bc, sa, ~sa)])
+GenPeerClientSpec == GenPeerClientInit /\ [][FALSE]_vars
 \* broken peers: the terminator is missing; several such calls run at once on one client (C13)
 GenDropInit ==
   \E p \in Protos, k \in Kinds, codec \in {"proto", "json"}, n \in 1..40 :
